@@ -2,7 +2,8 @@
 
 `dns_resolver::resolve` (recursive mode) is executed end to end from its coroutine MIR against an *adversarial*
 upstream: `query_nameserver` is replaced by a stub whose reply to each of the first D exchanges is chosen symbolically
-from a menu (silence; an answer; an alias to any name of the universe, the question name included; a referral for any
+from a menu (silence; an answer; an alias to any name of the universe, the question name included; an alias cycle
+inside one reply; a referral for any
 zone of the universe - an ancestor of the question name or not - to any nameserver name, with or without glue;
 records that have nothing to do with the question; a name error with SOA), and which from then on follows one of three
 endless strategies (silence; the same referral again and again; aliases in a circle).
@@ -16,6 +17,7 @@ timers that never fire, so what is shown is that the resolver stops by itself, n
 garbage / truncated / mismatched datagrams are filtered inside `query_nameserver` (response_matches_request is C06's)."""
 from localcommon import *
 import models_misc
+from check import native_test, save_replay
 
 NAMES = ['y.', 'x.', 'c.y.', 'd.y.', 'd.x.', 'n.y.', 'n.x.']
 ZONES = ['y.', 'x.', '.']
@@ -61,7 +63,7 @@ class Adversary(Harness):
             ex.require(len(calls) <= MAX_EXCHANGES, 'exchanges', f'more than {MAX_EXCHANGES} upstream exchanges for one question')
             i = len(calls)
             if i <= self.depth:
-                kind = c04.choose(ex, f'reply{i}', 6)
+                kind = c04.choose(ex, f'reply{i}', 7)
                 if kind == 0: script.append('silence'); return Opaque('stubfuture', opt(None))
                 if kind == 1: script.append(f'answer {qk} A'); return Opaque('stubfuture', message(q, 'NoError', [A(qk, 70 + i)] if qk != '?' else [], [], []))
                 if kind == 2:
@@ -71,6 +73,9 @@ class Adversary(Harness):
                     z = ZONES[c04.choose(ex, f'zone{i}', 3)]; host = NSNAMES[c04.choose(ex, f'ns{i}', 2)]; glue = bool(c04.choose(ex, f'glue{i}', 2))
                     script.append(f'referral {z} NS {host}{" +glue" if glue else ""}')
                     return Opaque('stubfuture', message(q, 'NoError', [], [NS(z, host)], [A(host, 50 + i)] if glue else []))
+                if kind == 6:
+                    script.append(f'alias cycle inside the reply: {qk} -> d.y. -> d.x. -> d.y.')
+                    return Opaque('stubfuture', message(q, 'NoError', [CN(qk, 'd.y.'), CN('d.y.', 'd.x.'), CN('d.x.', 'd.y.')] if qk not in ('?', 'd.y.', 'd.x.') else [CN(qk, 'c.y.'), CN('c.y.', qk)], [], []))
                 if kind == 4: script.append('unrelated records'); return Opaque('stubfuture', message(q, 'NoError', [A('d.x.', 90)], [NS('x.', 'n.x.')] if qk.endswith('y.') else [NS('y.', 'n.y.')], [A('d.y.', 91)]))
                 script.append('name error'); return Opaque('stubfuture', message(q, 'NameError', [], [SOA('y.' if qk.endswith('y.') else 'x.')], []))
             if tail == 'silence': return Opaque('stubfuture', opt(None))
@@ -110,13 +115,115 @@ class Adversary(Harness):
     def finding_key(self, v): return f"C08 {v.get('tag')}"
 
     def replay(self, world, v):
-        return None, None, 'no native replay generator for adversarial upstream scripts (the counterexample script is in the evidence)'
+        """native replay: the real resolver and transport against one fake upstream on loopback that plays the
+        counterexample's script (reply kinds by exchange number, then the endless strategy); a run that is still going
+        after 40 s, asks more than 64 times or returns a record nobody supplied is the violation"""
+        m = v.get('model') or {}
+        g = lambda k: int(m.get(k, 0) or 0)
+        kinds = ', '.join('(%d, %d, %d, %d, %s)' % (g(f'reply{i}'), g(f'alias{i}'), g(f'zone{i}'), g(f'ns{i}'), str(bool(g(f'glue{i}'))).lower()) for i in range(1, self.depth + 1))
+        src = NATIVE_RS % {'kinds': kinds, 'tail': g('tail'), 'fwd': str(bool(g('forwarding'))).lower(), 'max': MAX_EXCHANGES}
+        res = native_test(world, 'resolved', 'crates/resolved/src/main.rs', src, 'replay', release=True, lib=False, timeout=240)
+        txt = '\n'.join(f'[{k}] {t[-900:]}' for k, (_, t) in res.items())
+        if any('VERIF-NOSOCKETS' in t for _, t in res.values()): return None, None, 'loopback sockets unavailable for the native replay'
+        path = save_replay(self.pid, self.name, src, {'model': m, 'tag': v.get('tag'), 'detail': v.get('detail')})
+        oks = [ok_ for ok_, _ in res.values()]
+        if any(ok_ is False and 'VERIF-VIOLATED' in t for ok_, t in res.values()): return True, path, txt
+        if oks and all(ok_ is True for ok_ in oks): return False, path, txt
+        return None, path, txt
+
+
+NATIVE_RS = r"""use super::*;
+use std::io::{Read, Write};
+use std::sync::Mutex;
+
+fn name(s: &str) -> DomainName { DomainName::from_dotted_string(s).unwrap() }
+fn rr(n: &DomainName, d: RecordTypeWithData) -> ResourceRecord { ResourceRecord { name: n.clone(), rtype_with_data: d, rclass: RecordClass::IN, ttl: 300 } }
+fn a(n: &str, last: u8) -> ResourceRecord { rr(&name(n), RecordTypeWithData::A { address: Ipv4Addr::new(127, 0, 0, last) }) }     // every address is this very server
+fn cn(n: &DomainName, to: &str) -> ResourceRecord { rr(n, RecordTypeWithData::CNAME { cname: name(to) }) }
+fn ns(z: &str, h: &str) -> ResourceRecord { rr(&name(z), RecordTypeWithData::NS { nsdname: name(h) }) }
+fn soa(z: &str) -> ResourceRecord { rr(&name(z), RecordTypeWithData::SOA { mname: name("n.y."), rname: name("n.x."), serial: 1, refresh: 2, retry: 3, expire: 4, minimum: 60 }) }
+
+struct Script { kinds: Vec<(u8, usize, usize, usize, bool)>, tail: u8, calls: usize, supplied: Vec<ResourceRecord> }
+
+fn reply(state: &Mutex<Script>, octets: &[u8], record: bool) -> Option<Vec<u8>> {
+    let req = Message::from_octets(octets).ok()?;
+    let q = req.questions.first()?.clone();
+    let mut st = state.lock().unwrap();
+    if record { st.calls += 1; }
+    let i = st.calls;
+    let mut resp = req.make_response(); resp.header.is_authoritative = true; resp.header.recursion_available = false;
+    let under_y = q.name.is_subdomain_of(&name("y."));
+    let silence = |mut r: Message| { r.header.rcode = Rcode::ServerFailure; r };       // an unusable reply at once instead of a 5 s silence
+    let resp = if i <= st.kinds.len() {
+        let (kind, alias, zone, nsi, glue) = st.kinds[i - 1];
+        match kind {
+            0 => silence(resp),
+            1 => { resp.answers.push(rr(&q.name, RecordTypeWithData::A { address: Ipv4Addr::new(10, 0, 0, 70 + i as u8) })); resp }
+            2 => { resp.answers.push(cn(&q.name, ["c.y.", "d.y.", "d.x."][alias])); resp }
+            3 => { let h = ["n.y.", "n.x."][nsi]; resp.authority.push(ns(["y.", "x.", "."][zone], h)); if glue { resp.additional.push(a(h, 1)); } resp }
+            4 => { resp.answers.push(rr(&name("d.x."), RecordTypeWithData::A { address: Ipv4Addr::new(10, 0, 0, 90) })); resp.authority.push(if under_y { ns("x.", "n.x.") } else { ns("y.", "n.y.") }); resp.additional.push(rr(&name("d.y."), RecordTypeWithData::A { address: Ipv4Addr::new(10, 0, 0, 91) })); resp }
+            6 => { if q.name == name("d.y.") || q.name == name("d.x.") { resp.answers.push(cn(&q.name, "c.y.")); resp.answers.push(cn(&name("c.y."), &q.name.to_dotted_string())); } else { resp.answers.push(cn(&q.name, "d.y.")); resp.answers.push(cn(&name("d.y."), "d.x.")); resp.answers.push(cn(&name("d.x."), "d.y.")); } resp }
+            _ => { resp.header.rcode = Rcode::NameError; resp.authority.push(soa(if under_y { "y." } else { "x." })); resp }
+        }
+    } else {
+        match st.tail {
+            0 => silence(resp),
+            1 => { resp.authority.push(ns("y.", "n.y.")); resp.additional.push(a("n.y.", 1)); resp }
+            _ => { let other = if q.name == name("c.y.") { "d.y." } else { "c.y." }; resp.answers.push(cn(&q.name, other)); resp }
+        }
+    };
+    for r in resp.answers.iter().chain(resp.authority.iter()).chain(resp.additional.iter()) { st.supplied.push(r.clone()); }
+    resp.to_octets().ok().map(|b| b.to_vec())
+}
+
+#[test]
+fn replay() {
+    let state: &'static Mutex<Script> = Box::leak(Box::new(Mutex::new(Script { kinds: vec![%(kinds)s], tail: %(tail)s, calls: 0, supplied: Vec::new() })));
+    let forwarding: bool = %(fwd)s;
+    let udp = match std::net::UdpSocket::bind("127.0.0.1:0") { Ok(s) => s, Err(_) => { println!("VERIF-NOSOCKETS"); panic!("VERIF-NOSOCKETS"); } };
+    let port = udp.local_addr().unwrap().port();
+    let tcp = match std::net::TcpListener::bind(("127.0.0.1", port)) { Ok(s) => s, Err(_) => { println!("VERIF-NOSOCKETS"); panic!("VERIF-NOSOCKETS"); } };
+    std::thread::spawn(move || { let mut buf = [0u8; 1500]; while let Ok((n, peer)) = udp.recv_from(&mut buf) { if let Some(r) = reply(state, &buf[..n], true) { let _ = udp.send_to(&r, peer); } } });
+    std::thread::spawn(move || { for c in tcp.incoming() { if let Ok(mut c) = c {
+        let mut l = [0u8; 2]; if c.read_exact(&mut l).is_err() { continue; }
+        let mut b = vec![0u8; u16::from_be_bytes(l) as usize]; if c.read_exact(&mut b).is_err() { continue; }
+        if let Some(r) = reply(state, &b, false) { let _ = c.write_all(&(r.len() as u16).to_be_bytes()); let _ = c.write_all(&r); } } } });
+    let (tx, rx) = std::sync::mpsc::channel();
+    std::thread::spawn(move || {
+        let mut root = Zone::new(DomainName::root_domain(), None);
+        root.insert(&DomainName::root_domain(), RecordTypeWithData::NS { nsdname: name("h.") }, 300);
+        root.insert(&name("h."), RecordTypeWithData::A { address: Ipv4Addr::new(127, 0, 0, 1) }, 300);
+        let mut zones = Zones::new(); zones.insert(root);
+        let cache = SharedCache::new();
+        let question = Question { name: name("c.y."), qtype: QueryType::Record(RecordType::A), qclass: QueryClass::Record(RecordClass::IN) };
+        let fwd = if forwarding { Some(SocketAddr::new(Ipv4Addr::new(127, 0, 0, 1).into(), port)) } else { None };
+        let rt = tokio::runtime::Builder::new_current_thread().enable_all().build().unwrap();
+        let (_m, r) = rt.block_on(resolve(true, ProtocolMode::PreferV4, port, fwd, &zones, &cache, &question));
+        let _ = tx.send(r.map_err(|e| format!("{e:?}")));
+    });
+    let res = match rx.recv_timeout(Duration::from_secs(40)) {
+        Ok(r) => r,
+        Err(_) => { println!("VERIF-VIOLATED the resolution is still running after 40 s against an upstream that answers at once ({} exchanges so far)", state.lock().unwrap().calls); std::process::exit(101); }
+    };
+    let st = state.lock().unwrap();
+    println!("VERIF-TRACE exchanges={} result={:?}", st.calls, res);
+    assert!(st.calls <= %(max)s, "VERIF-VIOLATED {} upstream exchanges for one question", st.calls);
+    if let Ok(rec) = res {
+        let rrs = match rec { ResolvedRecord::Authoritative { rrs, .. } | ResolvedRecord::NonAuthoritative { rrs, .. } => rrs, _ => vec![] };
+        for g in &rrs {
+            let local = g.name == name("h.") || g.name == DomainName::root_domain();
+            assert!(local || st.supplied.iter().any(|s| s.name == g.name && s.rtype_with_data == g.rtype_with_data), "VERIF-VIOLATED a returned record was supplied neither by an upstream reply nor by local data: {g:?}");
+        }
+        for (i, g) in rrs.iter().enumerate() { assert!(!rrs[..i].contains(g), "VERIF-VIOLATED a record is returned twice"); }
+    }
+}
+"""
 
 
 def harnesses(world, tier, seed):
     q = tier == 'quick'
     hs = [Adversary(name='adversarial-upstream', depth=2 if q else 3,
-                    bounds={'question': 'c.y. A, recursive mode and forwarding mode (forwarder 10.8.8.8:53), root hints only, empty cache', 'upstream': f'first {2 if q else 3} exchanges: any of silence | answer | alias to c.y./d.y./d.x. | referral (zone y./x./root, nameserver n.y./n.x., glue or not) | unrelated records | name error; afterwards one of: silence, the same referral for ever, aliases in a circle',
+                    bounds={'question': 'c.y. A, recursive mode and forwarding mode (forwarder 10.8.8.8:53), root hints only, empty cache', 'upstream': f'first {2 if q else 3} exchanges: any of silence | answer | alias to c.y./d.y./d.x. | referral (zone y./x./root, nameserver n.y./n.x., glue or not) | unrelated records | name error | an alias cycle inside one reply that does not pass through the question name; afterwards one of: silence, the same referral for ever, aliases in a circle',
                             'exchanges': f'at most {MAX_EXCHANGES} (more is a violation)'},
                     assumptions=('tokio timers never fire: the 60 s / 5 s wall-clock budgets are not what is shown, only that the resolver stops by itself', 'query_nameserver is the adversary; datagram-level garbage, truncation and mismatches are filtered inside it (response_matches_request: C06)',
                                  'every upstream exchange completes at once (with a reply or without)'),
